@@ -235,5 +235,27 @@ CHECKS["C07"] = {
     ],
 }
 
+CHECKS["C14"] = {
+    "pkg": "./checks/c14",
+    "level": "exploration",
+    "technique": "round-trip property testing (rapid), exhaustive short-string enumeration and native coverage-guided fuzzing of the token decoders with a totality oracle",
+    "rule": ("round trip (rapid): proof lists of {0, 1, 2..6, 2..40, 40} proofs over 1..4 lower-case 16-hex keyset ids, amounts in [0, 2^63], secrets = 64-hex / arbitrary valid UTF-8 incl. quotes, backslashes, emoji, U+2028, <>& / NUT-10 JSON, witness absent or JSON, DLEQ absent / {e,s} / {e,s,r}, mint URLs incl. unicode and empty, includeDLEQ on/off, V3 and V4; "
+             "oracle: Decode(Serialize(New(proofs))) (generic and version-specific decoder) has the same mint, unit 'sat' and the same proofs as a multiset grouped by keyset with order checked inside a keyset, incl. witness and (when requested and complete) DLEQ; Amount() = sum mod 2^64 = Proofs().Amount(); only the documented constructor error (V4 + includeDLEQ + DLEQ without r) is allowed. "
+             "decoder totality: (rapid) 14 input families - truncations and single-byte mutations of valid tokens, wrong / swapped prefixes, short strings, prefix + base64 (url padded, raw url, std) of arbitrary JSON values and arbitrary CBOR items incl. wrong types, empty maps, nested items and huge declared lengths; (exhaustive) every string of length 0..7 over {c,a,s,h,u,A,B,e,=,-} and cashuA/cashuB + every string of length 0..3 over the base64url alphabet; (thorough) native fuzzing seeded and unseeded; "
+             "oracle: DecodeToken / DecodeTokenV3 / DecodeTokenV4 return an error or a token on which Proofs, Mint, Amount, Serialize return without panic and whose re-serialisation decodes to the same proofs. "
+             "non-trivial: round trip with >=2 keysets or a witness or DLEQ or a non-ASCII / JSON secret; decoder input that passed the prefix check; distinct = hash of the case."),
+    "level_text": "Generated proof sets and generated / enumerated / fuzzed strings against the real constructors and decoders; any lost or altered field, wrong amount or panic fails and shrinks to a minimal token or string.",
+    "level_note": "Trusted: Go encoding/base64, encoding/json, fxamacker/cbor for building inputs. Hex fields are generated lower-case and strings valid UTF-8 (what the formats can carry).",
+    "assumptions": ["hex fields lower-case; strings valid UTF-8; cross-keyset proof order is not promised by V4"],
+    "units": [
+        plain("regress", "^TestRegress"),
+        plain("short_exhaustive", "^TestDecode(Short|Prefixed)Exhaustive$"),
+        rapid("roundtrip", "^TestRoundTrip$", 4000, 300000, qs=4, ts=16),
+        rapid("decode", "^TestDecodeTotal$", 4000, 300000, qs=4, ts=16),
+        fuzz("fuzz_seeded", "FuzzDecode", "120s"),
+        dict(fuzz("fuzz_empty", "FuzzDecode", "120s"), env={"VERIF_FUZZ_CORPUS": "empty"}),
+    ],
+}
+
 NOT_APPLICABLE = {}
 HOOK_COMMITS = []
